@@ -297,7 +297,9 @@ LVarPrelude == <<SAsg("x", EAddC("a", 1)), SAsg("i", EV("a")), SAsg("j", EV("n")
 Init == /\ \E p \in (IF "lvar" \in Kinds THEN {LVarPrelude} ELSE Preludes) : stack = <<[Frame("fn", "", EC(0)) EXCEPT !.blk = p]>>
         /\ nodes = 0 /\ stage = "build"
         /\ prog = <<>> /\ ret = <<>> /\ refused = FALSE /\ res = <<>> /\ info = <<>>
-AddAsg == /\ CanAdd /\ ~HasBrk(Top.blk)
+\* configurations that study loop bodies only (Kinds = WhileBrkKinds) add no statements at the top level: prelude, loop, return
+BodiesOnly == Kinds = {"while", "brk"}
+AddAsg == /\ CanAdd /\ ~HasBrk(Top.blk) /\ ~(BodiesOnly /\ Len(stack) = 1)
           /\ \E a \in AsgMenu : stack' = AppendTop(stack, SAsg(a.v, a.e))
           /\ nodes' = nodes + 1
           /\ UNCHANGED <<stage, prog, ret, refused, res, info>>
